@@ -58,7 +58,10 @@ var c13Families = []c13Family{
 	{Name: "rxkey-off", T: `rx:false:(?sm)(?i)select[a-c]\z`, M: "sELECTb", MKey: "rx:false:selectb", RxPat: `(?i)select[a-c]\z`,
 		Roles: []string{"pm", "regexkey", "validatenid", "dataset-a"}},
 	// a pattern with a byte escape is compiled by the binary regex engine under @rx
-	{Name: "binary", T: `al\xffha`, M: "al\xffha", MKey: "al\xffha",
+	{Name: "binary", T: `al\xffha`, M: "al\xffha", MKey: "al\xffha", RxPat: `al\xffha`,
+		Roles: []string{"binrx", "pm", "regexkey", "restpath", "validatenid", "relstatus", "dataset-a", "dataset-b"}},
+	// the same with the default mode flags @rx prepends before it compiles (and caches) the pattern
+	{Name: "binary-flags", T: `(?sm)al\xffha`, M: "al\xffha", MKey: "al\xffha", RxPat: `al\xffha`,
 		Roles: []string{"binrx", "pm", "regexkey", "restpath", "validatenid", "relstatus", "dataset-a", "dataset-b"}},
 	{Name: "status", T: `40[34]`, M: "403", MKey: "x404",
 		Roles: []string{"relstatus", "pm", "regexkey", "regexexcl", "ctl", "restpath", "validatenid", "dataset-a", "dataset-b", "file-a", "file-b", "ipfile-a"}},
@@ -161,7 +164,7 @@ func c13RoleText(f *c13Family, role string) (string, map[string]string) {
 		fmt.Fprintf(&sb, "SecRxPreFilter %s\n", flag)
 		fmt.Fprintf(&sb, "SecRule ARGS:p \"@rx %s\" \"id:1,phase:1,pass,capture\"\n", f.RxPat)
 	case "binrx":
-		fmt.Fprintf(&sb, "SecRule ARGS:p \"@rx %s\" \"id:1,phase:1,pass,capture\"\n", T)
+		fmt.Fprintf(&sb, "SecRule ARGS:p \"@rx %s\" \"id:1,phase:1,pass,capture\"\n", f.RxPat)
 	default:
 		panic("c13: unknown role " + role)
 	}
